@@ -25,6 +25,7 @@ BranchAlphabet ==
   { KW("branch"), Tok("BININT", "1"), Tok("BININT", "2"), KW(":"), KW("{"), KW("}"), KW("<"), KW(">"),
     Tok("ID", "g"), KW(";"), KW("NL"), KW("let") }
 NoStart == <<>>
+RegisterStart == << KW("register"), Tok("ID", "q"), KW("["), Tok("INT", "2"), KW("]"), KW("NL"), KW("register") >>
 BranchStart == << KW("branch"), KW("{"), Tok("BININT", "1"), KW(":"), KW("{") >>
 PastSet == { Tok("ID", "q"), KW("NL"), KW("}") }
 
